@@ -102,6 +102,51 @@ Proof.
   - apply (inverse_unique n Q); [exact HQi|]. apply (gram_inverse n Lq Li Q HQ HLi).
 Qed.
 
+(* the model's closed form IS the Cholesky form the code evaluates (trace/quadratic part AND log-det
+   part), same hypotheses:  kl_rational + ln det Q - ln det P = |W|_F^2 + |d|^2 - n - sum_i ln w_ii^2
+   with W = Lq^-1 Lp, d = Lq^-1 (mp - mq) *)
+Theorem kl_closed_eq_cholesky_form n (mp mq P Q Qi Lp Lq Li : @M RF) :
+  tri_lower n Lp -> tri_lower n Lq ->
+  (forall i, (i < n)%nat -> 0 < Lp i i) -> (forall i, (i < n)%nat -> 0 < Lq i i) ->
+  is_inverse n Lq Li ->
+  meq n n (mmul n Lp (mT Lp)) P -> meq n n (mmul n Lq (mT Lq)) Q -> is_inverse n Q Qi ->
+  kl_rational n mp P mq Qi + ln (det n Q) - ln (det n P)
+  = kl2_chol n (@mmul RF n Li Lp) (fun a => @mmul RF n Li (@msub RF mp mq) a O).
+Proof.
+  intros HLp HLq Hpp Hpq HLi HP HQ HQi.
+  destruct (ln_det_gram n Lp P HLp Hpp HP) as [HdP ElP].
+  destruct (ln_det_gram n Lq Q HLq Hpq HQ) as [HdQ ElQ].
+  assert (HLiL : tri_lower n Li).
+  { apply (tri_lower_inverse n Lq Li HLq); [|exact (proj2 HLi)].
+    intros i Hi E. specialize (Hpq i Hi). cbn in E. lra. }
+  assert (Hii : forall i, (i < n)%nat -> Li i i = / Lq i i).
+  { intros i Hi. pose proof (proj2 HLi i i Hi Hi) as E.
+    rewrite (tri_lower_mmul_diag n Li Lq i HLiL HLq Hi) in E. unfold mI in E.
+    rewrite Nat.eqb_refl in E. cbn [fmul f1 RF] in E. specialize (Hpq i Hi).
+    apply (Rinv_from_mul (Li i i) (Lq i i) Hpq E). }
+  assert (HW : forall i, (i < n)%nat -> @mmul RF n Li Lp i i = / Lq i i * Lp i i).
+  { intros i Hi. rewrite (tri_lower_mmul_diag n Li Lp i HLiL HLp Hi). rewrite (Hii i Hi). reflexivity. }
+  assert (El : rsum n (fun i => ln (@mmul RF n Li Lp i i * @mmul RF n Li Lp i i))
+               = 2 * rsum n (fun i => ln (Lp i i)) - 2 * rsum n (fun i => ln (Lq i i))).
+  { rewrite <- !rsum_scal, <- rsum_minus. apply rsum_ext_lt. intros i Hi.
+    rewrite (HW i Hi). specialize (Hpp i Hi). specialize (Hpq i Hi).
+    assert (0 < / Lq i i) by (apply Rinv_0_lt_compat; exact Hpq).
+    assert (0 < / Lq i i * Lp i i) by (apply Rmult_lt_0_compat; assumption).
+    rewrite ln_mult by assumption. rewrite ln_mult by assumption. rewrite ln_Rinv by exact Hpq. lra. }
+  rewrite (kl_rational_compat n mp mq P (mmul n Lp (mT Lp)) Qi (mmul n (mT Li) Li)).
+  - rewrite kl_rational_chol, nat_f_RF, !sum_RF_rsum. unfold kl2_chol. rewrite El, ElP, ElQ.
+    replace (rsum n (fun i => @sum RF n (fun j => @fmul RF (@mmul RF n Li Lp i j) (@mmul RF n Li Lp i j))))
+      with (rsum n (fun i => rsum n (fun j => @mmul RF n Li Lp i j * @mmul RF n Li Lp i j))).
+    + cbn [fadd fsub fmul RF].
+      repeat match goal with |- context [@sum RF n ?f] =>
+        replace (@sum RF n f) with (rsum n f) by (symmetry; apply sum_RF_rsum) end.
+      lra.
+    + apply rsum_ext. intros i. symmetry.
+      apply (sum_RF_rsum n (fun j => @mmul RF n Li Lp i j * @mmul RF n Li Lp i j)).
+  - symmetry. exact HP.
+  - apply (inverse_unique n Q); [exact HQi|]. apply (gram_inverse n Lq Li Q HQ HLi).
+Qed.
+
 (* non-vacuity: a 2x2 instance of the hypotheses *)
 Definition exR_L : @M RF := fun i j => match i, j with O, O => 1 | 1%nat, O => 1 | 1%nat, 1%nat => 1 | _, _ => 0 end.
 Definition exR_Li : @M RF := fun i j => match i, j with O, O => 1 | 1%nat, O => -1 | 1%nat, 1%nat => 1 | _, _ => 0 end.
